@@ -24,7 +24,7 @@ func (c07) Rule() string {
 		"(properties, patternProperties, additionalProperties, prefixItems, items, contains) and 1-3 levels of in-place applicators (allOf, anyOf, oneOf, not, if/then/else, dependentSchemas, $ref, $dynamicRef) " +
 		"whose branches evaluate different subsets of a 4-name / 2-item pool, including failing branches that contain evaluators. Instances are EXHAUSTIVE per schema: all 81 objects over the name pool " +
 		"(each name absent / 1 / \"x\") or all 31 arrays of length 0-4 over the item pool. Oracle: reference model with first-class annotation sets. " +
-		"A case is non-trivial when deleting every unevaluated* keyword from the document flips the model's verdict (the keyword was decisive); distinct by (set of applicator keywords in the schema, instance shape, verdict)."
+		"Every fifth case serves the schema from a Loader document referenced by a root that mentions no unevaluated* itself. A case is non-trivial when deleting every unevaluated* keyword from the document flips the model's verdict (the keyword was decisive); distinct by (set of applicator keywords in the schema, instance shape, verdict)."
 }
 func (c07) Assumptions() []string {
 	return []string{"reference model annotations follow the 2020-12 rules (annotations only from successful subschemas, never from not, cousins invisible); suite-tested incl. unevaluatedItems/Properties files",
@@ -46,12 +46,22 @@ func (c07) Run(c *fw.Case) {
 	doc, array := gen.UnevalSchema(r)
 	text := gen.Text(doc)
 	mc := &modelCase{draft: refmodel.D2020, rootText: text}
+	remote := c.Idx%5 == 4
+	if remote {
+		// the unevaluated* schema lives in a Loader document; the root, which mentions no unevaluated* at all, only refers to it
+		rootDoc := gen.Pick(r, []map[string]any{{"$ref": "http://h/u.json"}, {"allOf": []any{map[string]any{"$ref": "u.json"}}}, {"$ref": "http://h/u.json", "title": "t"}, {"anyOf": []any{false, map[string]any{"$ref": "/u.json"}}}})
+		mc = &modelCase{draft: refmodel.D2020, rootText: gen.Text(rootDoc), baseURI: "http://h/root.json", docs: map[string]string{"http://h/u.json": text}}
+	}
 	m, rs, _, ok := mc.build(c)
 	if !ok {
 		return
 	}
 	// the same document without unevaluated*: decides whether the keyword mattered
-	bare, err := refmodel.Build(&refmodel.Universe{Draft: refmodel.D2020, Root: stripUneval(gen.Parse(text))})
+	bareU := &refmodel.Universe{Draft: refmodel.D2020, Root: stripUneval(gen.Parse(text))}
+	if remote {
+		bareU = &refmodel.Universe{Draft: refmodel.D2020, BaseURI: mc.baseURI, Root: gen.Parse(mc.rootText), Docs: map[string]any{"http://h/u.json": stripUneval(gen.Parse(text))}}
+	}
+	bare, err := refmodel.Build(bareU)
 	if err != nil {
 		bare = nil
 	}
